@@ -760,7 +760,10 @@ class Interp:
             return ("phi", tuple(oks)) if len(oks) > 1 else oks[0][1]
         if t[0] == "optmap":
             return t[2]
-        # symbolic: the success payload; the error exit is a non-accepting path
+        # symbolic: the success payload; the error exit is a non-accepting path (made an explicit path on request)
+        sp = getattr(self, "split_try", None)
+        if sp is not None and sp(t):
+            self.emit(("alt", [(("is", t, ERR), [], "err", None), (("is", t, OK), [], None, None)], loc))
         return ("try", t)
 
     def e_LetExpr(self, n, env):
